@@ -151,6 +151,26 @@ theorem C03_l2 (hs0 : ∀ x, 0 ≤ sqrt x) (hs : ∀ x, 0 ≤ x → sqrt x * sqr
   rw [approved, sumSq_perm (isort_perm _ _)]
   exact (sumSq_churnCap_le _ _).trans (sumSq_l2Scale_le sqrt hs0 hs _ _ hc)
 
+/-- `_l2_norm` (fix for `C03:t4:l2.tiny-cap`): on both of its paths — plain `sqrt(Σδ²)` and the
+largest-magnitude-factored-out path taken when `Σδ² < 2^-512` — the value is the non-negative root of
+the exact sum of squares, and it is `0` only when every delta is `0`; so `norm == 0.0` can no longer
+skip the scaling of a non-zero vector. -/
+theorem C03_l2_norm_exact (hs0 : ∀ x, 0 ≤ sqrt x) (hs : ∀ x, 0 ≤ x → sqrt x * sqrt x = x)
+    (ds : List (Delta α)) :
+    0 ≤ l2Norm sqrt ds ∧ l2Norm sqrt ds * l2Norm sqrt ds = sumSq ds ∧
+    (l2Norm sqrt ds = 0 ↔ ∀ d ∈ ds, d.delta = 0) :=
+  ⟨l2Norm_nonneg sqrt hs0 ds, l2Norm_sq sqrt hs ds, l2Norm_eq_zero_iff sqrt hs ds⟩
+
+/-- the L2 predicate does not change when the cap and every delta are multiplied by the same positive
+factor — the driver uses this to evaluate it at `Float` for caps so small that squares would underflow -/
+theorem C03_monL2_scale_invariant (c : α) (hc : 0 < c) (slack cap : α) (out : List (Delta α)) :
+    monL2 slack (c * cap) (out.map (scaleBy c)) = monL2 slack cap out := by
+  simp only [monL2, num_le, num_mul, num_add, num_one, sumSq_map_scaleBy]
+  rw [decide_eq_decide]
+  have h : c * cap * (c * cap) * (1 + slack) = c * c * (cap * cap * (1 + slack)) := by ring
+  rw [h]
+  exact mul_le_mul_iff_of_pos_left (mul_pos hc hc)
+
 /-- keep top-K by magnitude: every approved delta ranks strictly before every candidate (after
 scaling) whose target was not approved, under `(-|Δ|, ckey)` -/
 theorem C03_churn_topk : ∀ a ∈ (t4 sqrt thr inp).approved, ∀ c ∈ scaled sqrt inp,
@@ -268,6 +288,9 @@ example (thr : ℝ) (inp : Input ℝ) (hc : 0 < inp.capL2) :
 example (thr : ℝ) (inp : Input ℝ) (hc : 0 < inp.capL2) (hk : 0 ≤ inp.k) :
     monL2 0 inp.capL2 (t4 Real.sqrt thr inp).approved = true :=
   (C03_monitors_hold Real.sqrt thr inp Real.sqrt_nonneg (fun _ hx => Real.mul_self_sqrt hx) hc hk 0 le_rfl).2.2.2.1
+
+example (ds : List (Delta ℝ)) : l2Norm Real.sqrt ds * l2Norm Real.sqrt ds = sumSq ds :=
+  (C03_l2_norm_exact Real.sqrt Real.sqrt_nonneg (fun _ hx => Real.mul_self_sqrt hx) ds).2.1
 
 example (thr : ℝ) (inp : Input ℝ) (hc : 0 < inp.capL2) :
     ∀ d ∈ (t4 Real.sqrt thr inp).approved, |d.delta| ≤ |inp.capNov| := C03_novelty Real.sqrt thr inp hc
